@@ -52,8 +52,8 @@ def check(run):
     seen = set()
     for c in mk:
         a0 = c.args[0] if c.args else None
-        for v, st_ in q.alternatives(B, a0) if a0 is not None else []:
-            at = guard_atoms(st_ if st_ is not None else c)
+        for v, at_ in q.cases(B, a0) if a0 is not None else []:
+            at = at_ + guard_atoms(c)
             txt = q.unparse(v)
             if ('truthy', 'isinstance(%s, Interpreter)' % p, '') in at:
                 seen.add('interp')
